@@ -530,6 +530,27 @@ def gen_master_items(rng, depth, budget, floats=False, dup=True):
             else:
                 items.append(["s", name, 0, dict(attrs), gen_master_items(rng, depth + 1, budget, floats, dup)
                               if rng.random() < 0.5 else mutate_values(rng, item[4])])
+        # naming coincidences: next to a scope P with a child Q, parameters named P_Q, PxQ, P0Q (prefix + one
+        # joining character + child name), PQ, Pq (the scope name as a bare prefix), at every depth.  A path
+        # matcher that forgets the "." after the scope name confuses them with P.Q.
+        if item[0] == "s" and item[4] and not dis and rng.random() < 0.45:
+            q = rng.choice(item[4])
+            forms = [name + "_" + q[1], name + "x" + q[1], name + "0" + q[1], name + q[1], name + "q", name + "_z" + q[1]]
+            rng.shuffle(forms)
+            twins = []
+            for form in forms[: rng.randint(1, 3)]:
+                if form in used or form in NAMES:
+                    continue
+                used.append(form)
+                if q[0] == "d":
+                    tw_attrs = {k: v for k, v in q[3].items() if k in ("type", "multiple", "optional")}
+                    twins.append(["d", form, 0, tw_attrs, rng.choice(TYPES[q[5]][1]), q[5]])
+                else:
+                    twins.append(["d", form, 0, {}, rng.choice(TYPES["words"][1]), "words"])
+            if rng.random() < 0.5:
+                items[-1:-1] = twins          # before the scope
+            else:
+                items.extend(twins)
     return items
 
 
@@ -581,6 +602,12 @@ def master_paths(items, prefix=()):
 VAR_FORMS = ["$%s", "$(%s)", "x$(%s)", '"$%s"', "'$%s'", "$%s.5", "$(%s) 1"]
 
 
+def twin_paths(p, p2):
+    """(.., P, Q) and (.., P<c>Q) / (.., PQ) / (.., P<anything>): same parent, one name a proper prefix of the other's"""
+    a, b = (p, p2) if len(p) > len(p2) else (p2, p)
+    return len(a) == len(b) + 1 and a[:-2] == b[:-1] and b[-1] != a[-2] and b[-1].startswith(a[-2])
+
+
 PROFILES = {
     # cumulative thresholds: repeat, hit, misspelt, wrongly nested, clash, unknown scope, empty scope instance, (rest: variable)
     "shape": [0.10, 0.66, 0.75, 0.82, 0.845, 0.89, 0.94],
@@ -611,6 +638,16 @@ def gen_assignments(rng, paths, nvars, profile="shape"):
             q = rng.random()
             v = rng.choice(bad) if (bad and q < 0.10) else rng.choice(good) if q < 0.9 else rng.choice(["1", "a b", "None", "q"])
             out.append([list(p), v, dis, disup])
+            # the counterpart of a naming coincidence (P.Q next to P_Q / PxQ / PQ ...), before or after
+            if rng.random() < 0.5:
+                twins = [(p2, i2) for p2, i2 in defs if p2 != p and twin_paths(p, p2)]
+                if twins:
+                    p2, i2 = rng.choice(twins)
+                    entry = [list(p2), rng.choice(TYPES[i2[5]][2]), 0, 0]
+                    if rng.random() < 0.5:
+                        out.append(entry)
+                    else:
+                        out.insert(len(out) - 1, entry)
             # a multiple scope's instance: set some siblings in the same block
             if len(p) > 1 and rng.random() < 0.4:
                 sib = [(p2, i2) for p2, i2 in defs if p2[:-1] == p[:-1] and p2 != p]
